@@ -65,15 +65,17 @@ type resolver struct {
 
 func (r *resolver) module(y *Module) error {
 	r.loadedModules[y.ident] = y
-	if y.featureSet != nil {
-		if err := y.featureSet.Initialize(y); err != nil {
-			return err
-		}
-	}
 
 	// exand all includes
 	if err := r.copyOverIncludes(y, y.includes); err != nil {
 		return err
+	}
+
+	// after the includes, submodules define features of the module too
+	if y.featureSet != nil {
+		if err := y.featureSet.Initialize(y); err != nil {
+			return err
+		}
 	}
 
 	// expand all imports first because local uses may reference groupings in other files.
